@@ -57,3 +57,55 @@ def cache_option(model, payload):
     if bad:
         return {"reproduced": True, "detail": "; ".join(bad[:4]), "inputs": {"options": bad}}
     return {"reproduced": False, "detail": "every option value decodes as documented"}
+
+
+def faulty_inner(model, payload):
+    """a wrapped store whose write fails once: afterwards the cache-wrapped store answers exactly like the bare store
+    (no blob / path claimed that the store lacks), for every capacity"""
+    from collections import OrderedDict
+    from dds.store import MemoryStore
+    from dds._lru_store import LRUCacheStore
+
+    class Flaky(MemoryStore):
+        fail = None
+
+        def store_blob(self, key, blob, codec=None):
+            if Flaky.fail == "store_blob":
+                Flaky.fail = None
+                raise OSError(28, "No space left on device")
+            return super().store_blob(key, blob, codec)
+
+        def sync_paths(self, paths):
+            if Flaky.fail == "sync_paths":
+                Flaky.fail = None
+                raise OSError(28, "No space left on device")
+            return super().sync_paths(paths)
+
+    for cap in (1, 2, 10):
+        for what in ("store_blob", "sync_paths"):
+            inner = Flaky()
+            st = LRUCacheStore(inner, cap)
+            st.store_blob("k0", "v0", None)
+            Flaky.fail = what
+            try:
+                if what == "store_blob":
+                    st.store_blob("k1", "v1", None)
+                else:
+                    st.sync_paths(OrderedDict([("/p", "k0")]))
+                return {"reproduced": True, "detail": "capacity %d: the failure of the wrapped store's %s was swallowed" % (cap, what), "inputs": {"capacity": cap, "fault": what}}
+            except OSError:
+                pass
+            bare_has, bare_val = inner.has_blob("k1"), inner.fetch_blob("k1")
+            if st.has_blob("k1") != bare_has or st.fetch_blob("k1") != bare_val:
+                return {"reproduced": True, "detail": "capacity %d: after a failed %s of the wrapped store the cache-wrapped store reports has_blob(k1)=%r / fetch_blob(k1)=%r, the bare store %r / %r" % (cap, what, st.has_blob("k1"), st.fetch_blob("k1"), bare_has, bare_val), "inputs": {"capacity": cap, "fault": what}}
+            try:
+                w = dict(st.fetch_paths(["/p"]))
+            except BaseException as e:
+                w = type(e).__name__
+            try:
+                b = dict(inner.fetch_paths(["/p"]))
+            except BaseException as e:
+                b = type(e).__name__
+            if w != b:
+                return {"reproduced": True, "detail": "capacity %d: after a failed %s fetch_paths differs: wrapped %r, bare %r" % (cap, what, w, b), "inputs": {"capacity": cap, "fault": what}}
+    return {"reproduced": False, "detail": "the wrapper stays coherent with the store after a failed write, capacities 1, 2, 10"}
